@@ -418,6 +418,16 @@ def startConsumers (s : St) (asg : List (Nat × List Int)) : Out :=
   ({ s with cons := s.cons ++ news, nextCid := s.nextCid + tps.length, asg := tps },
    news.map fun c => .consumerStart c.cid c.topic c.part c.gen c.member groupConsumerStartOffset)
 
+/-- split the waiting `ConsumerGroup.stop` coroutines at the first one whose `DeferredList` contains
+    the shutdown Deferred of consumer `cid` -/
+def splitStops (cid : Nat) : List StopCo → Option (List StopCo × StopCo × List StopCo)
+  | [] => none
+  | co :: rest =>
+    if co.drain.pending.contains cid then some ([], co, rest)
+    else match splitStops cid rest with
+      | some (a, x, b) => some (co :: a, x, b)
+      | none => none
+
 /-- the consumer `cid`'s shutdown Deferred fired -/
 def consumerDown (cfg : Cfg) (s : St) (cid : Nat) (ok : Bool) : Out :=
   -- the consumer itself has stopped (`_start_d = None`, start's Deferred called back)
@@ -426,19 +436,14 @@ def consumerDown (cfg : Cfg) (s : St) (cid : Nat) (ok : Bool) : Out :=
     let d : Drain := { s.prep with pending := s.prep.pending.filter (· != cid) }
     if ok && !d.pending.isEmpty then ({ s with prep := d }, [])
     else andThen (drainDone { s with prep := ⟨[], []⟩ } d ok) afterPrepare
-  else if s.stops.any (fun (c : StopCo) => c.drain.pending.contains cid) then
-    -- the first `ConsumerGroup.stop` coroutine whose DeferredList contains it (they are disjoint)
-    let hit := s.stops.filter (fun (c : StopCo) => c.drain.pending.contains cid)
-    match hit with
-    | [] => (s, [])
-    | co :: _ =>
+  else
+    match splitStops cid s.stops with
+    | none => (s, [])   -- its DeferredList has fired already: the result is consumed silently
+    | some (a, co, b) =>
+      -- the `ConsumerGroup.stop` coroutine whose DeferredList contains it
       let d : Drain := { co.drain with pending := co.drain.pending.filter (· != cid) }
-      if ok && !d.pending.isEmpty then
-        ({ s with stops := s.stops.map fun (c : StopCo) => if c.drain.pending.contains cid then { c with drain := d } else c }, [])
-      else
-        let s : St := { s with stops := s.stops.filter fun (c : StopCo) => !c.drain.pending.contains cid }
-        andThen (drainDone s d ok) fun s => stopLoop cfg s co.err co.user
-  else (s, [])   -- its DeferredList has fired already: the result is consumed silently
+      if ok && !d.pending.isEmpty then ({ s with stops := a ++ { co with drain := d } :: b }, [])
+      else andThen (drainDone { s with stops := a ++ b } d ok) fun s => stopLoop cfg s co.err co.user
 
 def step (cfg : Cfg) (s : St) : Ev → Out
   | .start =>
